@@ -78,8 +78,10 @@ RESOURCE_MARKERS = ("Cannot allocate memory", "RESOURCE_EXHAUSTED", "Out of memo
                     "Unable to allocate", "Failed to allocate")
 
 
-class ResourceExhausted(RuntimeError):
-    """Raised instead of recording a failure when an exception in library code is the machine running out of memory."""
+class ResourceExhausted(SystemExit):
+    """Raised instead of recording a failure when an exception in library code is the machine running out of memory (or of
+    memory mappings).  A SystemExit subclass: Hypothesis re-raises it at once instead of shrinking the case, and the shard ends as
+    a harness error (exit 2, inconclusive)."""
 
 
 def lib(fails, label, fn, *a, **k):
